@@ -11,8 +11,11 @@ from vlib.runner import Ctx, HarnessError, Violation, hyp_run, unpickle_b64
 LEVEL = "exploration"
 RULE = (
     "C01 schemas/values; for each canonical encoding b (reference encoder): every strict prefix b[:k] (all k when "
-    "len(b) <= 48, else 48 evenly spaced cut points plus every cut that falls directly after a length prefix), and "
-    "every length prefix overwritten with count+1, count+1000, 2^31, 2^32-1 with the payload kept or removed. Oracle: "
+    "len(b) <= 48, else 48 evenly spaced cut points (12 plus the last three bytes beyond 1 KiB) plus cuts directly after "
+    "a length prefix), and "
+    "every length prefix overwritten with count+1, count+1000, 2^31, 2^32-1 with the payload kept or removed; plus an "
+    "enumeration of block-length (256/4096/8192) strings and byte arrays as last item at every bit offset 0..7, cut by "
+    "their last 1-3 bytes. Oracle: "
     "(a) whenever the reference decoder runs out of bits (always for strict prefixes) serde.decode must raise; returning "
     "a value is the violation; (b) deterministic work bound: calls of _Buffer.get_bit/_decode and iterations of "
     "every range() loop in fcp.serde must stay <= 64*(8*len(input)+schema nodes+64). Non-trivial = cut inside a string "
@@ -118,8 +121,12 @@ def mutations(s: Any, name: str, v: Any) -> List[Tuple[str, bytes, List[str]]]:
     after_prefix = {(off + w) // 8 for kind, _p, off, w in ann if kind.startswith("len_") and (off + w) % 8 == 0}
     if n <= 48:
         cuts = list(range(n))
-    else:
+    elif n <= 1024:
         cuts = sorted(set(round(i * (n - 1) / 47) for i in range(48)) | {k for k in after_prefix if k < n})
+    else:
+        # long encodings: 12 evenly spaced cuts, the last three bytes, and every cut right after a length prefix
+        cuts = sorted(set(round(i * (n - 1) / 11) for i in range(12)) | {n - 1, n - 2, n - 3}
+                      | {k for k in list(after_prefix)[:8] if k < n})
     for k in cuts:
         bit = 8 * k
         cl = ["prefix"]
@@ -165,8 +172,45 @@ def check_one(fcp: Any, s: Any, name: str, data: bytes, nodes: int) -> Tuple[Opt
     return None, must_fail
 
 
+def directed_block_tails(ctx: Ctx) -> None:
+    """Enumerated: a block-length (256 / 4096 / 8192) string or byte array as the last item of the encoding, at every
+    bit offset 0..7, cut by its last 1-3 bytes and right after its length prefix."""
+    from vlib import model as M
+
+    rec = ctx.rec
+    jobs = [(k, n, kind) for k in range(8) for n in (256, 4096, 8192) for kind in ("str", "bytes")]
+    for j, (k, n, kind) in enumerate(jobs):
+        if j % ctx.nshards != ctx.shard:
+            continue
+        fields = [M.Field("s", 1, M.Str() if kind == "str" else M.Dyn(M.U(8)))]
+        if k:
+            fields.insert(0, M.Field("a", 0, M.U(k)))
+        s = M.Schema([M.Struct("T", fields)])
+        fcp, text, err = frontend.parse_schema(s)
+        if fcp is None:
+            raise HarnessError(f"directed schema rejected: {err}")
+        v: Dict[str, Any] = {"s": ("fcpz" * (n // 4)) if kind == "str" else [(i * 29) & 0xFF for i in range(n)]}
+        if k:
+            v["a"] = (1 << k) - 1
+        data = refcodec.encode(s, "T", v)
+        nodes = schema_nodes(s)
+        for cut in sorted({len(data) - 1, len(data) - 2, len(data) - 3, (k + 32 + 7) // 8, 4, 5}):
+            if not (0 <= cut < len(data)):
+                continue
+            msg, must_fail = check_one(fcp, s, "T", data[:cut], nodes)
+            rec.eval()
+            rec.cls("directed_block_tail", "prefix")
+            rec.nt([text, "T", cut, n])
+            if msg:
+                rec.violations.append({"message": f"block-length {kind} of {n} at bit offset {k}, prefix[:{cut}] of {len(data)}: {msg}",
+                                       "case": {**CC.case_json(s, "T", v), "input": data[:cut].hex(), "mutation": f"prefix[:{cut}]"},
+                                       "seed": ctx.base_seed, "shard": ctx.shard})
+                return
+
+
 def run_shard(ctx: Ctx) -> None:
     rec = ctx.rec
+    directed_block_tails(ctx)
 
     def body(case: Any) -> None:
         s, name, vals = case
@@ -191,8 +235,8 @@ def run_shard(ctx: Ctx) -> None:
                 if msg:
                     raise Violation(f"{desc}: {msg}", {**CC.case_json(s, name, v), "input": data.hex(), "mutation": desc})
 
-    vcfg = CC.S.ValCfg(long_str=120, long_dyn=40)
-    hyp_run(ctx, CC.codec_case(ctx.tier, 3, vcfg), body, ctx.n(700, 12000))
+    vcfg = CC.S.ValCfg(long_str=120, long_dyn=40, magic_lengths=False)
+    hyp_run(ctx, CC.codec_case(ctx.tier, 3, vcfg), body, ctx.n(1800, 12000))
 
 
 def replay(case: Dict[str, Any]) -> Optional[str]:
